@@ -2,6 +2,7 @@
 # tools/slot.sh setup <n>                      scratch copy of /repo (git worktree) and of the harness under /tmp/slot/<n>
 # tools/slot.sh sync <n>                       bring the slot's harness copy up to date with /verif/harness
 # tools/slot.sh run <n> <patch.diff> <ID> [tier] [base]   apply a seeded change to the slot's repo copy, run the check there, undo
+# tools/slot.sh runall <n> <patch.diff> <tier> <ID>...   apply a change, run several checks against it, undo
 # tools/slot.sh check <n> <ID> [tier]           run a check in the slot on the slot's unchanged copy of /repo
 # tools/slot.sh teardown <n>                   remove the slot (worktree, build output)
 # Slots exist so that several seeded changes can be tried at once without ever touching /repo; the checks
@@ -51,6 +52,19 @@ case "$CMD" in
     git checkout HEAD -- . ; git reset -q; git clean -fdq -e target
     grep -E "^(VIOLATION|KNOWN-FINDING|MACHINERY|property=)" "$S/out.txt" | cut -c1-300 | head -n 40
     echo "exit=$RC"
+    find "$S/verif/replays" -mindepth 1 -delete 2>/dev/null
+    ;;
+  runall)
+    # tools/slot.sh runall <n> <patch.diff> <tier> <ID>...   one patch, many checks (false-alarm runs: every check must stay silent)
+    PATCH="$3"; TIER="$4"; shift 4
+    cd "$S/repo" && git checkout -- . || exit 3
+    git clean -fdq -e target
+    git apply "$PATCH" || { echo "patch does not apply"; exit 3; }
+    for ID in "$@"; do
+      "$S/verif/check" "$ID" "$TIER" > "$S/out.$ID.txt" 2>&1; RC=$?
+      echo "$ID exit=$RC $(grep -E "^(VIOLATION|KNOWN-FINDING|MACHINERY)" "$S/out.$ID.txt" | cut -c1-260 | head -n 6 | tr '\n' '|')"
+    done
+    git checkout HEAD -- . ; git reset -q; git clean -fdq -e target
     find "$S/verif/replays" -mindepth 1 -delete 2>/dev/null
     ;;
   check)
